@@ -110,6 +110,10 @@ pub fn run(l: &[i128]) -> Vec<i128> {
                 None => vec![-1],
             }
         }
+        [40, r, g, bl, a] => match tiny_skia::Color::from_rgba(f(*r), f(*g), f(*bl), f(*a)) {
+            Some(c) => vec![b(c.red()), b(c.green()), b(c.blue()), b(c.alpha())],
+            None => vec![-1],
+        },
         [33, w, h, x, y] => match coded_pixmap(u(*w), u(*h)) {
             Some(pm) => match pm.pixel(u(*x), u(*y)) {
                 Some(p) => vec![decode_px(p)],
